@@ -74,6 +74,12 @@ K_PI_GT = re.compile(rb'<\?(?:(?!\?>)[^>])*(?<!\?)>', re.S)
 K_SCRIPT_TYPE_CASE = re.compile(rb'(?i:<script\b[^>]*\btype\s*=\s*["\']?)[^"\'>]*[A-Z]')
 
 
+# constructs whose defect is fixed in /repo are no longer excluded: FIXED lists them permanently; VERIF_C09_LIFT=K5,K8 lifts more for a
+# trial run against a patched tree (maintenance)
+FIXED = set()
+LIFTED = FIXED | set(filter(None, os.environ.get('VERIF_C09_LIFT', '').split(',')))
+
+
 def has_known_construct(b):
     return KNOWN_CONSTRUCT.search(b) is not None
 
@@ -103,7 +109,7 @@ def excluded(lang, opts, b):
         tags.append('K10')
     if lang == 'html' and K_SCRIPT_TYPE_CASE.search(b):
         tags.append('K11')
-    return tags
+    return [t for t in tags if t not in LIFTED]
 
 
 def sha(b):
